@@ -119,6 +119,23 @@ Theorem C07_output_validates_under_every_serialization_option :
 Proof. exact serialized_output_validates_all_options_checked. Qed.
 Print Assumptions C07_output_validates_under_every_serialization_option.
 
+(* ... and with classes used several times, given through $ref + $defs (the validator's fuel only has to exceed the nesting of
+   objects in the produced datum) *)
+Theorem C07_output_validates_under_every_serialization_option_with_refs :
+  forall u so t n jf v,
+  gen_hyps_refs u so t n v = true ->
+  exists j d, image u so (S n) t v = SROk j /\ unembed j = Some d /\
+              (dd d <= jf -> in_domain d = true ->
+               jvalid false (snd (model_ser_schema u so false t)) jf (fst (model_ser_schema u so false t)) d = true).
+Proof. exact serialized_output_validates_all_options_refs_checked. Qed.
+Print Assumptions C07_output_validates_under_every_serialization_option_with_refs.
+
+Theorem C07_every_option_with_refs_hypotheses_satisfiable :
+  refs_of_ser gen_ex_univ2 false (TObj 1) = ["C0"]%string /\ gen_hyps_refs gen_ex_univ2 gen_ex_opts (TObj 1) 3 gen_ex_value2 = true
+  /\ gen_hyps gen_ex_univ2 gen_ex_opts (TObj 1) 3 gen_ex_value2 = false.
+Proof. exact gen_ex2. Qed.
+Print Assumptions C07_every_option_with_refs_hypotheses_satisfiable.
+
 (* satisfiable where the first class theorem does not apply: a skipped default, a dropped None, an Undefined union and a
    serialized method under exclude_defaults; the second line holds five properties, the first only two *)
 Theorem C07_every_option_hypotheses_satisfiable :
